@@ -393,6 +393,11 @@ fn path_case(src: &mut Src, ctx: &mut Ctx) -> Result<(), String> {
         for y in y0..=y1 {
             let z = G::path_zone(&v, w, (x, y));
             let got = path.contains(&pt((x, y)));
+            // the same question through the Shape enum (the form the importers use)
+            let got_enum = raw::Shape::Path(path.clone()).contains(&pt((x, y)));
+            if got_enum != got {
+                return Err(format!("Path width {} points {:?}: contains({},{}) = {} asked of the path, {} asked of Shape::Path of it", w, v, x, y, got, got_enum));
+            }
             match z {
                 G::Zone::MustBeInside => {
                     ni += 1;
